@@ -94,7 +94,10 @@ class _RoutingFlowControl:
             if elapsed < ROUTING_INDICATION_WAIT_TIME:
                 await asyncio.sleep(ROUTING_INDICATION_WAIT_TIME - elapsed)
 
-            await self._ready.wait()
+            while not self._ready.is_set():
+                # re-check after waking up: a RoutingBusy received between the end
+                # of a pause and this task being resumed has cleared the event again
+                await self._ready.wait()
             yield
             self._last_sent_routing_indication_time = self._loop.time()
 
